@@ -38,11 +38,35 @@ impl ElfSectionsTag {
     }
 
     /// Get an iterator over the ELF sections.
+    ///
+    /// # Panics
+    /// Panics if the section headers or the string table section header that
+    /// the tag announces are not fully contained in the tag.
     #[must_use]
     pub const fn sections(&self) -> ElfSectionIter {
-        let string_section_offset = (self.shndx * self.entry_size) as isize;
+        let entry_size = self.entry_size as usize;
+        let number_of_sections = self.number_of_sections as usize;
+        let string_section_offset = if number_of_sections == 0 {
+            // Nothing will ever be dereferenced.
+            0
+        } else {
+            assert!(
+                entry_size == 40 || entry_size == 64,
+                "Unexpected entry size. The MBI seems to be corrupt."
+            );
+            let available_entries = self.sections.len() / entry_size;
+            assert!(
+                number_of_sections <= available_entries,
+                "The section headers must be contained in the tag. The MBI seems to be corrupt."
+            );
+            assert!(
+                (self.shndx as usize) < available_entries,
+                "The string table section header must be contained in the tag. The MBI seems to be corrupt."
+            );
+            self.shndx as usize * entry_size
+        };
         let string_section_ptr =
-            unsafe { self.sections.as_ptr().offset(string_section_offset) as *const _ };
+            unsafe { self.sections.as_ptr().add(string_section_offset) as *const _ };
         ElfSectionIter {
             current_section: self.sections.as_ptr(),
             remaining_sections: self.number_of_sections,
